@@ -432,7 +432,7 @@ impl TargetActors {
     ensures
         final(self).same_config(old(self)),
         r is Ok ==> final(self).wf(*final(tr)),
-        final(self).wf_handles(*final(tr)),
+        /*[C10.terminate-all]*/ final(self).wf_handles(*final(tr)),
         r matches Ok(h) ==> final(self).target_actor_handles@.contains_key(*target_id) && *h == final(self).target_actor_handles@[*target_id],
         /*[C08.launch-once]*/ old(self).target_actor_handles@.contains_key(*target_id) ==> *final(tr) == *old(tr) && final(self).target_actor_handles == old(self).target_actor_handles && r is Ok,
         /*[C08.launch-once]*/ !old(self).target_actor_handles@.contains_key(*target_id) && r is Ok ==> final(tr).launched.len() == old(tr).launched.len() + 1 && final(tr).launched.last().id == *target_id,
